@@ -142,6 +142,16 @@ class World:
         return self.tables.get(kind)
 
 
+def view(w, op):
+    """x-limits on the sample grid for the plotting calls (None in a third of the cases)"""
+    if op % 3 == 0:
+        return None
+    n = len(w.sig)
+    a = (op * 13) % max(1, n // 2)
+    b = min(n, a + n // 3 + (op * 7) % max(1, n // 2))
+    return (a / w.fs, b / w.fs)
+
+
 def call_spec(name, w, op):
     """-> (function, args list of (label, object), kwargs dict of label -> object) using the world's SHARED objects"""
     fs, fr = w.fs, w.fr
@@ -218,13 +228,13 @@ def call_spec(name, w, op):
     if name == 'plot_burst_detect_summary' and t_cyc is not None:
         th = {k: v for k, v in w.th_cyc.items()}
         w.plot_th = getattr(w, 'plot_th', None) or th
-        return plot_burst_detect_summary, [('df_features', t_cyc), ('sig', w.sig), ('fs', fs), ('threshold_kwargs', w.plot_th)], dict(plot_only_result=bool(op % 2), interp=bool(op % 3)), None
+        return plot_burst_detect_summary, [('df_features', t_cyc), ('sig', w.sig), ('fs', fs), ('threshold_kwargs', w.plot_th)], dict(plot_only_result=bool(op % 2), interp=bool(op % 3), xlim=view(w, op)), None
     if name == 'plot_burst_detect_param' and t_cyc is not None:
-        return plot_burst_detect_param, [('df_features', t_cyc), ('sig', w.sig), ('fs', fs), ('burst_param', 'monotonicity'), ('thresh', 0.5)], dict(interp=bool(op % 2)), None
+        return plot_burst_detect_param, [('df_features', t_cyc), ('sig', w.sig), ('fs', fs), ('burst_param', 'monotonicity'), ('thresh', 0.5)], dict(interp=bool(op % 2), xlim=view(w, op)), None
     if name == 'plot_cyclepoints_df' and t_any is not None:
-        return plot_cyclepoints_df, [('df_samples', t_any), ('sig', w.sig), ('fs', fs)], dict(plot_zerox=bool(op % 2), plot_sig=bool(op % 3)), None
+        return plot_cyclepoints_df, [('df_samples', t_any), ('sig', w.sig), ('fs', fs)], dict(plot_zerox=bool(op % 2), plot_sig=bool(op % 3), xlim=view(w, op)), None
     if name == 'plot_cyclepoints_array' and t_ext is not None:
-        return plot_cyclepoints_array, [('sig', w.sig), ('fs', fs)], dict(peaks=t_ext[0], troughs=t_ext[1]), None
+        return plot_cyclepoints_array, [('sig', w.sig), ('fs', fs)], dict(peaks=t_ext[0], troughs=t_ext[1], xlim=view(w, op)), None
     if name == 'plot_feature_hist' and t_any is not None:
         return plot_feature_hist, [('feature', t_any), ('param_label', 'volt_amp')], dict(only_bursts=bool(op % 2)), None
     if name == 'plot_feature_categorical' and t_any is not None:
